@@ -40,6 +40,27 @@ class Mapped:
 
 
 @dataclass
+class Unmapped:
+    """field names that look like sanitised keywords, but NO key maps: the wire keys are the field names themselves"""
+
+    id_: int
+    from_: str
+    type_: Optional[str] = None
+
+
+@dataclass
+class PartlyMapped:
+    """only one field is renamed; the others keep their names on the wire"""
+
+    class_: int
+    id_: str
+
+    class Meta:
+        key_transform_with_load = {"class": "class_"}
+        key_transform_with_dump = {"class_": "class"}
+
+
+@dataclass
 class CaseKeys:
     name: str
     name_upper: str
@@ -92,6 +113,8 @@ _WARM = [
     (Plain, {"a": "x", "b": 1}),
     (Mapped, {"firstName": "x", "class": 1}),
     (CaseKeys, {"name": "a", "Name": "b"}),
+    (Unmapped, {"id_": 1, "from_": "f", "type_": "t"}),
+    (PartlyMapped, {"class": 1, "id_": "i"}),
     (Leafy, {"when": WHENS[0], "day": DAYS[0], "blob": BLOBS[1], "flag": True, "ratio": 1.5}),
     (Nested, {"inner": {"firstName": "x", "class": 1}, "items": [{"a": "x", "b": 1}], "m": {"k": 1}, "opt": {"a": "y", "b": 2}}),
     (Deep, {"nested": {"inner": {"firstName": "x", "class": 1}}, "byKey": {"k": {"firstName": "y", "class": 2}}, "rows": [[1]]}),
@@ -286,6 +309,68 @@ def tw_deep_decode_encode(fn: str, cl: int, has_by: bool, n_rows: int, r: int) -
     post: _
     """
     unstructure_to_dict(structure_from_dict({"nested": {"inner": {"firstName": fn, "class": cl}}}, Deep))
+    return False
+
+
+def ob_unmapped_keyword_like_fields(i: int, f: str, has_t: bool, t: str, partly: bool) -> bool:
+    """
+    pre: len(f) <= 2 and len(t) <= 1
+    post: _
+    """
+    if partly:
+        doc = {"class": i, "id_": f}
+        obj = structure_from_dict(dict(doc), PartlyMapped)
+        back = unstructure_to_dict(obj)
+        return obj.class_ == i and obj.id_ == f and back == doc and structure_from_dict(dict(back), PartlyMapped) == obj
+    doc = {"id_": i, "from_": f}
+    if has_t:
+        doc["type_"] = t
+    obj = structure_from_dict(dict(doc), Unmapped)
+    back = unstructure_to_dict(obj)
+    return _norm(back) == _norm(doc) and set(back) <= {"id_", "from_", "type_"} and structure_from_dict(dict(back), Unmapped) == obj
+
+
+def tw_unmapped_keyword_like_fields(i: int, f: str, has_t: bool, t: str, partly: bool) -> bool:
+    """
+    pre: len(f) <= 2 and len(t) <= 1
+    post: _
+    """
+    unstructure_to_dict(structure_from_dict({"id_": i, "from_": f}, Unmapped))
+    return False
+
+
+def ob_encode_after_failed_encode(w: int, n: int, fn: str, nested: bool) -> bool:
+    """
+    pre: 0 <= w < 3 and 0 <= n <= 2 and len(fn) <= 1
+    post: _
+    """
+    # history: an encode fails half-way (a bytes field holding text), the value is repaired, the SAME instances are encoded again
+    leaf = Leafy(when=INSTANTS[w], blob="not bytes")  # type: ignore[arg-type]
+    holder = Nested(inner=Mapped(first_name=fn, class_=n), items=[Plain(a=fn, b=n)])
+    try:
+        unstructure_to_dict(leaf)
+        return False  # a str in a bytes field cannot be base64-encoded
+    except Exception:
+        pass
+    if nested:
+        try:
+            DataclassSerializer.serialize({"bad": leaf, "good": holder})
+        except Exception:
+            pass
+    leaf.blob = bytes(range(n))
+    again = unstructure_to_dict(leaf)
+    if not isinstance(again, dict) or structure_from_dict(dict(again), Leafy) != leaf:
+        return False
+    h = unstructure_to_dict(holder)
+    return isinstance(h, dict) and structure_from_dict(h, Nested) == holder and DataclassSerializer.serialize(leaf) is not None
+
+
+def tw_encode_after_failed_encode(w: int, n: int, fn: str, nested: bool) -> bool:
+    """
+    pre: 0 <= w < 3 and 0 <= n <= 2 and len(fn) <= 1
+    post: _
+    """
+    unstructure_to_dict(Leafy(when=INSTANTS[w], blob=bytes(range(n))))
     return False
 
 
